@@ -1018,6 +1018,7 @@ func c10(c *Ctx) {
 		b808, batt = 20*time.Minute, 15*time.Minute
 	}
 	if os.Getenv("VERIF_C10_ONLY") != "att" {
+		parserAged(c)
 		gen808(c, "0", b808)
 		if os.Getenv("VERIF_C10_PARSEALL") != "0" {
 			gen808ParseAll(c, b808/4)
@@ -1051,6 +1052,7 @@ func c10(c *Ctx) {
 		memory808(c) // 2 s: the finding is reproduced in every tier
 	}
 	if !c.Quick() && os.Getenv("VERIF_C10_ONLY") == "" {
+		expirySocket(c)
 		buffers(c)
 		descriptors(c)
 	}
@@ -1100,6 +1102,84 @@ func descriptors(c *Ctx) {
 				What:  "after many short hostile connections a new connection is no longer accepted and answered (descriptors not released)",
 				Input: req, Observed: Trunc(ans, 600), Required: "ok alive=1 first=1 served=1"})
 		}
+	}
+}
+
+// parserAged: sub-package transfers that outlive the 5 s re-request and the 60 s expiry.  A socket run cannot wait 60 s
+// in the quick tier, so this family drives ONE connection's parser (service.VerifParser = packageParse.parse unchanged,
+// Age shifts the stored times) read by read: packet 1 of N, age, the other packets / packet 1 again / packets of other
+// ids; a panic here is a panic of the reader goroutine, i.e. the death of the server.  Model: Server.parse_chk with the
+// same clock.  (The thorough tier also plays one such script over a socket with a real 61 s pause.)
+func parserAged(c *Ctx) {
+	rng := c.Rng
+	pk := func(id uint16, v bool, bcd []byte, ser, sum, no uint16, body []byte) string {
+		return "f:" + Hx(FrameSpec{ID: id, Ver2019: v, Phone: bcd, Serial: ser, Frag: true, Sum: sum, No: no, Body: body}.Wire())
+	}
+	ages := []int{4900, 5100, 30000, 59000, 61000, 120000}
+	n := 0
+	for _, id := range []uint16{0x0200, 0x0801, 0x7777} {
+		for _, total := range []uint16{2, 3, 5} {
+			for _, age := range ages {
+				for variant := 0; variant < 4; variant++ {
+					v := (n % 2) == 0
+					bcd := nextPhone(v)
+					var toks []string
+					toks = append(toks, pk(id, v, bcd, 1, total, 1, []byte{1, 2}))
+					if variant == 3 { // a second transfer of another id is pending too
+						toks = append(toks, pk(id+1, v, bcd, 2, 2, 1, []byte{9}))
+					}
+					toks = append(toks, fmt.Sprintf("a:%d", age))
+					switch variant {
+					case 0: // the remaining packets in order
+						for no := uint16(2); no <= total; no++ {
+							toks = append(toks, pk(id, v, bcd, 10+no, total, no, []byte{byte(no)}))
+						}
+					case 1: // the last packet only, then an unrelated heartbeat, then packet 2 after another pause
+						toks = append(toks, pk(id, v, bcd, 20, total, total, []byte{7}), "f:"+Hx(Frame808(0x0002, v, bcd, 21, nil)),
+							fmt.Sprintf("a:%d", 61000), pk(id, v, bcd, 22, total, 2, []byte{8}))
+					case 2: // packet 1 again (a new transfer), then the others
+						toks = append(toks, pk(id, v, bcd, 30, total, 1, []byte{3}))
+						for no := uint16(2); no <= total; no++ {
+							toks = append(toks, pk(id, v, bcd, 30+no, total, no, []byte{byte(no)}))
+						}
+					default: // packets of both ids in one read
+						toks = append(toks, "f:"+Hx(append(Unhx(strings.TrimPrefix(pk(id, v, bcd, 40, total, 2, []byte{5}), "f:")),
+							Unhx(strings.TrimPrefix(pk(id+1, v, bcd, 41, 2, 2, []byte{6}), "f:"))...)))
+					}
+					if rng.Intn(3) == 0 {
+						toks = append(toks, "a:61000", pk(id, v, bcd, 50, total, total, []byte{1}))
+					}
+					req := "parse808age " + strings.Join(toks, " ")
+					ans := c.Do(req, true)
+					c.Count("808/parser-aged")
+					n++
+					if strings.Contains(ans, "panic") {
+						c.Violate(Violation{Signature: "C10/808/crash/parser-aged",
+							What:  "the JT808 parser of a connection panicked on a sub-package that arrived after its transfer had aged (in the server this is the reader goroutine: the whole process dies)",
+							Input: req, Observed: Trunc(ans, 400), Required: "no panic: a late packet of an expired transfer is ignored"})
+					}
+				}
+			}
+		}
+	}
+}
+
+// expirySocket (thorough tier): the same over a socket with a real pause of 61 s between packet 1 and packet 2
+func expirySocket(c *Ctx) {
+	for _, v := range []bool{false} {
+		s := &script{kind: "808", param: "0", class: "expiry-over-socket"}
+		s.good808()
+		k := s.hostile()
+		bcd := nextPhone(v)
+		s.O(k)
+		s.D(k, FrameSpec{ID: 0x0801, Ver2019: v, Phone: bcd, Serial: 1, Frag: true, Sum: 3, No: 1, Body: []byte{1, 2}}.Wire())
+		s.toks = append(s.toks, "T:61000")
+		s.D(k, FrameSpec{ID: 0x0801, Ver2019: v, Phone: bcd, Serial: 2, Frag: true, Sum: 3, No: 2, Body: []byte{3}}.Wire())
+		s.D(k, FrameSpec{ID: 0x0801, Ver2019: v, Phone: bcd, Serial: 3, Frag: true, Sum: 3, No: 3, Body: []byte{4}}.Wire())
+		s.probe(k, v, bcd)
+		s.good808()
+		s.accept808()
+		run(c, s)
 	}
 }
 
